@@ -265,15 +265,17 @@ def statsUnsound (c : Col) (pg : SpecPage) : Option String :=
   let nonNull := pg.entries.filterMap (·.val)
   let mn := getBin st 6
   let mx := getBin st 5
-  match getI64 st 3 with
-  | some n => if n ≠ (nulls : Int) then some "null_count differs from the number of entries without a value" else none
-  | none => none
+  (match getI64 st 3 with
+   | some n => if n ≠ (nulls : Int) then some "null_count differs from the number of entries without a value" else none
+   | none => none)
   <|> (if nonNull.isEmpty ∧ (mn.isSome ∨ mx.isSome) then some "min/max present on a page without non-null values" else none)
   <|> (match mn with
-       | some m => if vals.any (fun v => vLt c.ty v m) then some "a value is below min" else none
+       | some m => if vals.any (fun v => vLt c.ty v m) then some "a value is below min"
+                   else if isNaNVal c.ty m ∧ !vals.isEmpty then some "min is NaN: min <= v is false for every value" else none
        | none => none)
   <|> (match mx with
-       | some m => if vals.any (fun v => vLt c.ty m v) then some "a value is above max" else none
+       | some m => if vals.any (fun v => vLt c.ty m v) then some "a value is above max"
+                   else if isNaNVal c.ty m ∧ !vals.isEmpty then some "max is NaN: v <= max is false for every value" else none
        | none => none)
 
 def statsCheckFile (cols : List Col) (f : SpecFile) : Option String :=
